@@ -22,6 +22,16 @@ NEAR = ['s000000000.c', 's00000000000.c', 'x0000000000.c', 'S0000000000.c', 'D00
         's0000000000.c ', '0000000000s.c', 'sd00000000.c', 's+000000001.c']
 
 
+# 13-character names with the right prefix and extension where ONE of the ten digit positions holds a character that lenient
+# number parsers accept (sign, blanks, radix letters, exponent, separators)
+for _pos in range(10):
+    for _ch in ' +-\tXxe.,_':
+        _d = list('0000000007')
+        _d[_pos] = _ch
+        NEAR.append(('s' if _pos % 2 else 'd') + ''.join(_d) + '.c')
+NEAR += ['s0x0000001f.c', 'd0X00000001.c', 's00000001e1.c', 'd         7.c', 's\t\t\t\t\t\t\t\t\t1.c']
+
+
 def snapshot(root):
     snap = {}
     for dp, dns, fns in os.walk(root):
@@ -136,7 +146,7 @@ def make_case(rnd, k, root, modules):
     # decoys: in target dir, its parent, cwd, in/, elsewhere/
     decoy_dirs = {target_dir, os.path.dirname(target_dir), cwd, os.path.join(root, 'in'), os.path.join(root, 'elsewhere'),
                   os.path.join(root, 'out', 'sub', 'deeper')}
-    chosen = rnd.sample(NEAR, 10) + rnd.sample(EXACT, 3)
+    chosen = rnd.sample(NEAR, 14) + rnd.sample(EXACT, 3)
     for dd in decoy_dirs:
         for n in chosen:
             p = os.path.join(dd, n)
